@@ -9,6 +9,7 @@ package main
 // Replays run with TZ=UTC.
 
 import (
+	"go/types"
 	"golang.org/x/tools/go/ssa"
 )
 
@@ -163,6 +164,11 @@ func (ex *Exec) timeParts(v Value) timeFields {
 	if !ok1 || !ok2 {
 		ex.unsupported("time.Time fields")
 	}
+	if p, ok := st.Fields[2].(Pointer); ok && p.Obj != nil {
+		if _, fixed := ex.zoneOffsets[p.Obj]; fixed {
+			ex.unsupported("civil fields of a time in a time.FixedZone location (the time model is UTC only)")
+		}
+	}
 	ts := ex.ts
 	field := func(shift uint64, width int) *Term {
 		r := ts.BVBin("bvlshr", w, ts.BVConst(64, shift))
@@ -280,7 +286,39 @@ func init() {
 		return ex.timeMake(t.st, ny, nmo, nd, nh, nmi, nsec, nns, nil)
 	})
 	registerIntrinsic("(time.Time).In", func(ex *Exec, fr *Frame, fn *ssa.Function, a []Value, site ssa.Instruction) Value {
+		if p, ok := a[1].(Pointer); ok && p.Obj != nil {
+			if _, fixed := ex.zoneOffsets[p.Obj]; fixed {
+				// a time.FixedZone location: only Zone() is modelled on the result (timeParts refuses it)
+				st := a[0].(*StructV)
+				fs := append([]Value(nil), st.Fields...)
+				fs[2] = a[1]
+				return &StructV{Fields: fs}
+			}
+		}
 		return a[0]
+	})
+	// time.FixedZone(name, offset): an opaque Location whose only modelled property is the offset
+	registerIntrinsic("time.FixedZone", func(ex *Exec, fr *Frame, fn *ssa.Function, a []Value, site ssa.Instruction) Value {
+		rt := fn.Signature.Results().At(0).Type().(*types.Pointer).Elem()
+		o := ex.newObject(rt, "time.FixedZone")
+		if ex.zoneOffsets == nil {
+			ex.zoneOffsets = map[*Object]*Term{}
+		}
+		ex.zoneOffsets[o] = a[1].(*Term)
+		return Pointer{Obj: o}
+	})
+	registerIntrinsic("(time.Time).Zone", func(ex *Exec, fr *Frame, fn *ssa.Function, a []Value, site ssa.Instruction) Value {
+		st, ok := a[0].(*StructV)
+		if !ok {
+			ex.unsupported("time.Time value is %T", a[0])
+		}
+		if p, ok := st.Fields[2].(Pointer); ok && p.Obj != nil {
+			if off, fixed := ex.zoneOffsets[p.Obj]; fixed {
+				return TupleV{ex.strConst("<zone>"), off}
+			}
+		}
+		ex.unsupported("time.Time.Zone of a location that is not a time.FixedZone")
+		return nil
 	})
 	registerIntrinsic("(time.Time).UTC", func(ex *Exec, fr *Frame, fn *ssa.Function, a []Value, site ssa.Instruction) Value {
 		return a[0]
